@@ -773,6 +773,532 @@ Section PROOFS.
     intros HL Hs Hd Ht E. apply data_of_sim. apply sim_stage; [exact Hs|exact HL|].
     rewrite E. exists rows, t. auto.
   Qed.
+
+  (* ============================================================================================ *)
+  (* the bucket arrays of planner_generic_aggregator.go                                            *)
+  Lemma setv_length : forall l i x, List.length (setv V l i x) = List.length l.
+  Proof. induction l as [|y r IH]; intros [|i] x; cbn [setv List.length]; auto. Qed.
+
+  Lemma getv_setv : forall l i j x, (i < List.length l)%nat ->
+    getv V v0 (setv V l i x) j = if Nat.eqb i j then x else getv V v0 l j.
+  Proof.
+    unfold getv. induction l as [|y r IH]; intros i j x Hi; cbn [List.length] in Hi; [lia|].
+    destruct i as [|i], j as [|j]; cbn [setv nth Nat.eqb]; try reflexivity. apply IH. lia.
+  Qed.
+
+  Definition cell (l : list V) (b : nat) : V * V := (getv V v0 l (2 * b), getv V v0 l (S (2 * b))).
+
+  Definition upd2 (l : list V) (b : nat) (f : V -> V -> V * V) : list V :=
+    let '(a, n) := f (getv V v0 l (2 * b)) (getv V v0 l (S (2 * b))) in setv V (setv V l (2 * b) a) (S (2 * b)) n.
+
+  Lemma upd2_length l b f : List.length (upd2 l b f) = List.length l.
+  Proof. unfold upd2. destruct (f _ _). now rewrite !setv_length. Qed.
+
+  Lemma cell_upd2 l b f b' : (S (2 * b) < List.length l)%nat ->
+    cell (upd2 l b f) b' = if Nat.eqb b b' then f (fst (cell l b)) (snd (cell l b)) else cell l b'.
+  Proof.
+    intros Hb. unfold cell, upd2. cbn [fst snd]. destruct (f _ _) as [a n].
+    rewrite !getv_setv by (rewrite ?setv_length; lia).
+    destruct (Nat.eqb_spec b b') as [->|Hne].
+    - rewrite Nat.eqb_refl. replace (Nat.eqb (S (2 * b')) (2 * b')) with false by (symmetry; apply Nat.eqb_neq; lia).
+      replace (Nat.eqb (2 * b') (S (2 * b'))) with false by (symmetry; apply Nat.eqb_neq; lia).
+      now rewrite Nat.eqb_refl.
+    - replace (Nat.eqb (S (2 * b)) (2 * b')) with false by (symmetry; apply Nat.eqb_neq; lia).
+      replace (Nat.eqb (2 * b) (2 * b')) with false by (symmetry; apply Nat.eqb_neq; lia).
+      replace (Nat.eqb (S (2 * b)) (S (2 * b'))) with false by (symmetry; apply Nat.eqb_neq; lia).
+      replace (Nat.eqb (2 * b) (S (2 * b'))) with false by (symmetry; apply Nat.eqb_neq; lia).
+      reflexivity.
+  Qed.
+
+  (* the update an entry applies to the two cells of its bucket, per aggregation function *)
+  Definition upd_of (k : agg_kind) (e : entry) : V -> V -> V * V :=
+    let x := e_val V e in
+    match k with
+    | KLra LRate | KLra LCount | KAggOp ACount => fun a _ => (vadd a v1, v1)
+    | KLra LBytesRate | KLra LBytesOver => fun a _ => (vadd a (vofZ (Z.of_nat (String.length (e_msg V e)))), v1)
+    | KUnwrap URate | KUnwrap USum | KAggOp ASum => fun a _ => (vadd a x, v1)
+    | KUnwrap UAvg | KAggOp AAvg => fun a n => (vadd a x, vadd n v1)
+    | KUnwrap UMax | KAggOp AMax => fun a n => if vltb a x || veqb n v0 then (x, v1) else (a, n)
+    | KUnwrap UMin | KAggOp AMin => fun a n => if vltb x a || veqb n v0 then (x, v1) else (a, n)
+    | KUnwrap UFirst => fun a n => if veqb n v0 then (x, v1) else (a, n)
+    | KUnwrap ULast => fun _ _ => (x, v1)
+    | _ => fun a n => (a, n)
+    end.
+
+  Definition in_window (c : ctx) (dur : Z) (e : entry) : Prop :=
+    0 < dur /\ c_from c <= e_ts V e < c_from c + stream_len c dur * dur.
+
+  Lemma bucket_in_window c dur e : in_window c dur e ->
+    0 <= bucket_of V c dur e < stream_len c dur.
+  Proof.
+    intros [Hd [H1 H2]]. unfold bucket_of. rewrite Z.quot_div_nonneg by lia. split.
+    - apply Z.div_pos; lia.
+    - apply Z.div_lt_upper_bound; lia.
+  Qed.
+
+  Notation agg_add := (agg_add V v0 v1 vadd vltb veqb vofZ).
+
+  Lemma agg_add_in_window k c dur e l :
+    agg_specified k = true -> in_window c dur e -> Z.of_nat (List.length l) = 2 * stream_len c dur ->
+    agg_add k c dur e l = Ok (upd2 l (Z.to_nat (bucket_of V c dur e)) (upd_of k e)).
+  Proof.
+    intros Hk Hw Hl. pose proof (bucket_in_window c dur e Hw) as Hb. unfold bucket_of in *.
+    set (q := Z.quot (e_ts V e - c_from c) dur) in *.
+    assert (Hr : in_range V l (q * 2) = true).
+    { unfold in_range. apply andb_true_iff. split; [apply Z.leb_le; lia|apply Z.ltb_lt; lia]. }
+    assert (Hn : Z.to_nat (q * 2) = (2 * Z.to_nat q)%nat) by lia.
+    assert (HB : forall f, bucket_upd V v0 l (q * 2) f = Ok (upd2 l (Z.to_nat q) f)).
+    { intros f. unfold bucket_upd, upd2. rewrite Hr, Hn. destruct (f _ _); reflexivity. }
+    destruct k as [fn|fn|fn]; destruct fn; try discriminate Hk; cbn [InternalEngine.agg_add lra_add uagg_add aggop_add upd_of];
+      fold q; try (rewrite HB; reflexivity); unfold aggop_add; fold q; lazy zeta;
+      (replace ((q <? 0) || (Z.of_nat (List.length l) <? q * 2)) with false
+         by (symmetry; apply orb_false_iff; split; [apply Z.ltb_ge; lia|apply Z.ltb_ge; lia]));
+      lazy beta iota zeta; rewrite HB; reflexivity.
+  Qed.
+
+  Lemma streams_find_put : forall ss f s g,
+    streams_find V (streams_put V ss f s) g = if N.eqb g f then Some s else streams_find V ss g.
+  Proof.
+    induction ss as [|[h s'] r IH]; intros f s g; cbn [streams_put streams_find].
+    - reflexivity.
+    - destruct (N.compare_spec f h) as [E|L|G]; cbn [streams_find].
+      + subst h. destruct (N.eqb g f); reflexivity.
+      + destruct (N.eqb g f); reflexivity.
+      + rewrite IH. destruct (N.eqb_spec g h) as [->|Hne]; [|reflexivity].
+        destruct (N.eqb_spec h f) as [->|_]; [lia|reflexivity].
+  Qed.
+
+  Definition bkt (c : ctx) (dur : Z) (e : entry) : nat := Z.to_nat (bucket_of V c dur e).
+  Definition sel (c : ctx) (dur : Z) (f : N) (b : nat) (l : list entry) : list entry :=
+    filter (fun e => N.eqb (e_fp V e) f && Nat.eqb (bkt c dur e) b) l.
+  Definition fold_cell (k : agg_kind) (es : list entry) : V * V :=
+    fold_left (fun acc e => upd_of k e (fst acc) (snd acc)) es (v0, v0).
+
+  (* the invariant of the aggregator state after the entries `seen` *)
+  Definition cells_inv (k : agg_kind) (c : ctx) (dur : Z) (ss : streams V) (seen : list entry) : Prop :=
+    forall f, match streams_find V ss f with
+              | None => proj f seen = []
+              | Some s =>
+                (exists e0 rest, proj f seen = e0 :: rest /\ s_labels V s = e_lbl V e0) /\
+                Z.of_nat (List.length (s_values V s)) = 2 * stream_len c dur /\
+                forall b, Z.of_nat b < stream_len c dur -> cell (s_values V s) b = fold_cell k (sel c dur f b seen)
+              end.
+
+  Lemma sel_app c dur f b l1 l2 : sel c dur f b (l1 ++ l2) = sel c dur f b l1 ++ sel c dur f b l2.
+  Proof. apply filter_app. Qed.
+
+  Lemma cell_repeat n b : cell (repeat v0 n) b = (v0, v0).
+  Proof. unfold cell, getv. now rewrite !nth_repeat. Qed.
+
+  Notation agg_on_entry := (agg_on_entry V v0 v1 vadd vltb veqb vofZ).
+
+  Lemma agg_step k c dur ss seen e ss' e' :
+    agg_specified k = true -> e_err V e = ENone -> in_window c dur e ->
+    cells_inv k c dur ss seen -> agg_on_entry k c dur ss e = Ok (ss', e') ->
+    cells_inv k c dur ss' (seen ++ [e]) /\ e' = e.
+  Proof.
+    intros Hk He Hw Inv Hstep. unfold InternalEngine.agg_on_entry in Hstep. rewrite He in Hstep.
+    pose proof (bucket_in_window c dur e Hw) as Hb.
+    assert (Hnew : new_values V v0 v1 k c dur = Ok (repeat v0 (Z.to_nat (stream_len c dur * 2)))).
+    { unfold new_values. replace (stream_len c dur * 2 <? 0) with false by (symmetry; apply Z.ltb_ge; lia).
+      destruct k as [fn|fn|fn]; try reflexivity. destruct fn; try reflexivity. discriminate Hk. }
+    set (fe := e_fp V e) in *.
+    (* the stream the entry lands in, before the update *)
+    assert (Hs : exists s0, (match streams_find V ss fe with Some s => Ok s | None =>
+                   if 2000 <=? Z.of_nat (List.length ss) then Fail EErr
+                   else match new_values V v0 v1 k c dur with Ok vs => Ok {| s_labels := e_lbl V e; s_values := vs |} | Fail x => Fail x end end) = Ok s0 /\
+                 Z.of_nat (List.length (s_values V s0)) = 2 * stream_len c dur /\
+                 (forall b, Z.of_nat b < stream_len c dur -> cell (s_values V s0) b = fold_cell k (sel c dur fe b seen)) /\
+                 (exists e0 rest, proj fe (seen ++ [e]) = e0 :: rest /\ s_labels V s0 = e_lbl V e0)).
+    { specialize (Inv fe). destruct (streams_find V ss fe) as [s|] eqn:F.
+      - destruct Inv as [[e0 [rest [P L]]] [Len C]]. exists s. split; [reflexivity|]. split; [exact Len|]. split; [exact C|].
+        exists e0, (rest ++ [e]). split; [|exact L]. rewrite proj_app, P. cbn [proj filter]. unfold fe. now rewrite N.eqb_refl.
+      - destruct (2000 <=? Z.of_nat (List.length ss)); [discriminate|]. rewrite Hnew in *. eexists. split; [reflexivity|].
+        cbn [s_values s_labels]. split; [rewrite repeat_length; lia|]. split.
+        + intros b _. rewrite cell_repeat. unfold sel.
+          replace (filter _ seen) with (@nil entry); [reflexivity|].
+          symmetry. clear - Inv. unfold proj in Inv. induction seen as [|x r IH]; [reflexivity|]. cbn [filter] in *.
+          destruct (N.eqb (e_fp V x) fe); [discriminate|]. cbn [andb]. now apply IH.
+        + exists e, []. split; [|reflexivity]. rewrite proj_app, Inv. cbn [proj filter app]. unfold fe. now rewrite N.eqb_refl. }
+    destruct Hs as [s0 [Hs0 [Len [C L]]]]. rewrite Hs0 in Hstep.
+    rewrite (agg_add_in_window k c dur e (s_values V s0) Hk Hw Len) in Hstep. inversion Hstep; subst ss' e'. split; [|reflexivity].
+    intros f. rewrite streams_find_put. destruct (N.eqb_spec f fe) as [->|Hne].
+    - split; [exact L|]. cbn [s_values]. rewrite upd2_length. split; [exact Len|].
+      intros b Hbb. rewrite cell_upd2 by lia. rewrite sel_app. unfold fold_cell. rewrite fold_left_app.
+      fold (bkt c dur e). cbn [sel filter]. fold fe. rewrite N.eqb_refl. cbn [andb].
+      destruct (Nat.eqb_spec (bkt c dur e) b) as [->|Hb'].
+      + cbn [fold_left]. fold (fold_cell k (sel c dur fe b seen)). rewrite <- (C b Hbb). reflexivity.
+      + cbn [fold_left]. apply C. exact Hbb.
+    - specialize (Inv f). assert (P : proj f (seen ++ [e]) = proj f seen).
+      { rewrite proj_app. cbn [proj filter]. fold fe. replace (N.eqb fe f) with false by (symmetry; apply N.eqb_neq; congruence). apply app_nil_r. }
+      assert (S : forall b, sel c dur f b (seen ++ [e]) = sel c dur f b seen).
+      { intros b. rewrite sel_app. cbn [sel filter]. fold fe. replace (N.eqb fe f) with false by (symmetry; apply N.eqb_neq; congruence). apply app_nil_r. }
+      destruct (streams_find V ss f) as [s|]; [|now rewrite P].
+      destruct Inv as [Hl [Len' C']]. split; [now rewrite P|]. split; [exact Len'|]. intros b Hbb. rewrite S. now apply C'.
+  Qed.
+
+  Definition agg_input_ok (c : ctx) (dur : Z) (l : list entry) : Prop :=
+    Forall (fun e => e_err V e = ENone /\ in_window c dur e) l.
+
+  Lemma agg_fold k c dur : agg_specified k = true -> forall l ss seen ss' l',
+    agg_input_ok c dur l -> cells_inv k c dur ss seen ->
+    fold_entries V (agg_ops V v0 v1 vadd vdiv vltb veqb vofZ k c dur) ss l = Ok (ss', l') ->
+    cells_inv k c dur ss' (seen ++ l) /\ l' = l.
+  Proof.
+    intros Hk. induction l as [|e r IH]; intros ss seen ss' l' Hin Inv Hf; cbn [fold_entries] in Hf.
+    - inversion Hf; subst. now rewrite app_nil_r.
+    - inversion Hin as [|? ? [He Hw] Hr]; subst. cbn [on_entry agg_ops] in Hf.
+      destruct (agg_on_entry k c dur ss e) as [[s1 e1]|x] eqn:E1; [|discriminate].
+      destruct (agg_step k c dur ss seen e s1 e1 Hk He Hw Inv E1) as [Inv1 ->].
+      destruct (fold_entries V _ s1 r) as [[s2 r2]|x] eqn:E2; [|discriminate]. inversion Hf; subst.
+      destruct (IH s1 (seen ++ [e]) ss' r2 Hr Inv1 E2) as [Inv2 ->]. split; [|reflexivity].
+      now rewrite <- app_assoc in Inv2.
+  Qed.
+
+  Lemma cells_inv_nil k c dur : cells_inv k c dur [] [].
+  Proof. intros f. reflexivity. Qed.
+
+  (* ---- emission ---- *)
+  Lemma pair_ind {A} (P : list A -> Prop) :
+    P [] -> (forall a, P [a]) -> (forall a n r, P r -> P (a :: n :: r)) -> forall l, P l.
+  Proof.
+    intros H0 H1 H2. assert (H : forall l, P l /\ forall a, P (a :: l)).
+    { induction l as [|x r [IH1 IH2]]; [split; auto|]. split; [apply IH2|]. intros a. now apply H2. }
+    intros l. apply H.
+  Qed.
+
+  Definition mk_out (c : ctx) (dur : Z) (f : N) (lb : option lbls) (i : Z) (a : V) : entry :=
+    {| e_ts := c_from c + i * dur; e_fp := f; e_lbl := lb; e_msg := EmptyString; e_val := a; e_err := ENone |}.
+
+  Lemma cell_cons2 a n r b : cell (a :: n :: r) (S b) = cell r b.
+  Proof. unfold cell, getv. replace (2 * S b)%nat with (S (S (2 * b))) by lia. reflexivity. Qed.
+
+  Lemma flat_map_seq_shift {B} (F : nat -> list B) s m : flat_map F (seq (S s) m) = flat_map (fun b => F (S b)) (seq s m).
+  Proof. rewrite <- seq_shift, !flat_map_concat_map, map_map. reflexivity. Qed.
+
+  Lemma emit_spec c dur f lb : forall l i,
+    emit V v0 vltb c dur f lb i l =
+    flat_map (fun b => if vltb v0 (snd (cell l b)) then [mk_out c dur f lb (i + Z.of_nat b) (fst (cell l b))] else [])
+             (seq 0 (Nat.div2 (List.length l))).
+  Proof.
+    induction l as [| a | a n r IH] using pair_ind; intros i; try reflexivity.
+    cbn [emit List.length Nat.div2]. rewrite IH. cbn [seq flat_map]. rewrite flat_map_seq_shift.
+    change (cell (a :: n :: r) 0) with (a, n). cbn [fst snd]. rewrite Z.add_0_r.
+    assert (T : flat_map (fun b => if vltb v0 (snd (cell r b)) then [mk_out c dur f lb (i + 1 + Z.of_nat b) (fst (cell r b))] else [])
+                         (seq 0 (Nat.div2 (List.length r))) =
+                flat_map (fun b => if vltb v0 (snd (cell (a :: n :: r) (S b)))
+                                   then [mk_out c dur f lb (i + Z.of_nat (S b)) (fst (cell (a :: n :: r) (S b)))] else [])
+                         (seq 0 (Nat.div2 (List.length r)))).
+    { apply flat_map_ext. intros b. rewrite cell_cons2. replace (i + 1 + Z.of_nat b) with (i + Z.of_nat (S b)) by lia. reflexivity. }
+    rewrite T. unfold mk_out at 1. destruct (vltb v0 n); reflexivity.
+  Qed.
+
+  Definition fin_fn (k : agg_kind) (dur : Z) : V -> V -> V :=
+    match k with
+    | KLra LRate | KLra LBytesRate | KUnwrap URate => fun a _ => vdiv a (dur_seconds V vdiv vofZ dur)
+    | KUnwrap UAvg => fun a n => if veqb n v0 then a else vdiv a n
+    | KAggOp AAvg => fun a n => if vltb v0 n then vdiv a n else a
+    | _ => fun a _ => a
+    end.
+
+  Lemma map_even_id : forall l, map_even V (fun a _ => a) l = l.
+  Proof. induction l as [| a | a n r IH] using pair_ind; cbn [map_even]; try reflexivity. now rewrite IH. Qed.
+
+  Lemma agg_fin_fn k dur l : agg_fin V v0 vdiv vltb veqb vofZ k dur l = map_even V (fin_fn k dur) l.
+  Proof.
+    destruct k as [fn|fn|fn]; destruct fn; cbn [agg_fin lra_fin uagg_fin aggop_fin fin_fn]; try reflexivity; now rewrite map_even_id.
+  Qed.
+
+  Lemma map_even_length g : forall l, List.length (map_even V g l) = List.length l.
+  Proof. induction l as [| a | a n r IH] using pair_ind; cbn [map_even List.length]; try reflexivity. now rewrite IH. Qed.
+
+  Lemma cell_map_even g : forall l b, (b < Nat.div2 (List.length l))%nat ->
+    cell (map_even V g l) b = (g (fst (cell l b)) (snd (cell l b)), snd (cell l b)).
+  Proof.
+    induction l as [| a | a n r IH] using pair_ind; intros b Hb; cbn [List.length Nat.div2] in Hb; try lia.
+    cbn [map_even]. destruct b as [|b].
+    - reflexivity.
+    - rewrite !cell_cons2. apply IH. lia.
+  Qed.
+
+  (* ---- keys of the stream table stay strictly ascending ---- *)
+  Fixpoint skeys (lo : option N) (ss : streams V) : Prop :=
+    match ss with
+    | [] => True
+    | (f, _) :: r => match lo with None => True | Some x => (x < f)%N end /\ skeys (Some f) r
+    end.
+
+  Lemma skeys_weaken ss : forall lo lo', skeys lo ss ->
+    match lo', lo with Some y, Some x => (y <= x)%N | Some _, None => False | None, _ => True end -> skeys lo' ss.
+  Proof.
+    destruct ss as [|[f s] r]; intros lo lo' H Hl; [exact I|]. cbn [skeys] in *. destruct H as [H1 H2]. split; [|exact H2].
+    destruct lo' as [y|]; [|exact I]. destruct lo as [x|]; [lia|contradiction].
+  Qed.
+
+  Lemma skeys_put : forall ss lo f s, skeys lo ss -> match lo with None => True | Some x => (x < f)%N end ->
+    skeys lo (streams_put V ss f s).
+  Proof.
+    induction ss as [|[g s'] r IH]; intros lo f s H Hlo; cbn [streams_put skeys].
+    - split; [exact Hlo|exact I].
+    - cbn [skeys] in H. destruct H as [H1 H2]. destruct (N.compare_spec f g) as [E|L|G]; cbn [skeys].
+      + subst g. split; [exact H1|exact H2].
+      + split; [exact Hlo|]. split; [exact L|exact H2].
+      + split; [exact H1|]. apply IH; [exact H2|exact G].
+  Qed.
+
+  Lemma skeys_lower : forall r g, skeys (Some g) r -> forall f s, In (f, s) r -> (g < f)%N.
+  Proof.
+    induction r as [|[h s2] r' IHr]; intros g H f s Hin; [destruct Hin|].
+    cbn [skeys] in H. destruct H as [A B]. destruct Hin as [E|Hin]; [inversion E; subst; exact A|].
+    apply (IHr g) with (s := s); [|exact Hin]. apply (skeys_weaken r' (Some h) (Some g) B). lia.
+  Qed.
+
+  Lemma skeys_find : forall ss lo f s, skeys lo ss -> In (f, s) ss -> streams_find V ss f = Some s.
+  Proof.
+    induction ss as [|[g s'] r IH]; intros lo f s H Hin; [destruct Hin|].
+    cbn [skeys] in H. destruct H as [H1 H2]. cbn [streams_find]. destruct Hin as [E|Hin].
+    - inversion E; subst. now rewrite N.eqb_refl.
+    - destruct (N.eqb_spec f g) as [->|_]; [|now apply (IH (Some g))].
+      exfalso. pose proof (skeys_lower r g H2 g s Hin). lia.
+  Qed.
+
+  Lemma agg_fold_keys k c dur : forall l ss ss' l',
+    skeys None ss -> fold_entries V (agg_ops V v0 v1 vadd vdiv vltb veqb vofZ k c dur) ss l = Ok (ss', l') -> skeys None ss'.
+  Proof.
+    induction l as [|e r IH]; intros ss ss' l' Hk Hf; cbn [fold_entries] in Hf; [now inversion Hf; subst|].
+    cbn [on_entry agg_ops] in Hf. destruct (agg_on_entry k c dur ss e) as [[s1 e1]|x] eqn:E1; [|discriminate].
+    destruct (fold_entries V _ s1 r) as [[s2 r2]|x] eqn:E2; [|discriminate]. inversion Hf; subst.
+    apply (IH s1 ss' r2); [|exact E2]. clear - Hk E1. unfold InternalEngine.agg_on_entry in E1.
+    destruct (e_err V e); try discriminate; [|inversion E1; now subst].
+    destruct (match streams_find V ss (e_fp V e) with Some s => Ok s | None => _ end) as [s|x]; [|discriminate].
+    destruct (agg_add k c dur e (s_values V s)) as [vs|x]; [|discriminate]. inversion E1; subst. now apply skeys_put.
+  Qed.
+
+  (* ---- what one series sends: one entry per non-empty bucket, value = finalised fold over the bucket's entries ---- *)
+  Definition series_out (k : agg_kind) (c : ctx) (dur : Z) (f : N) (lb : option lbls) (l : list entry) : list entry :=
+    flat_map (fun b => let an := fold_cell k (sel c dur f b l) in
+                       if vltb v0 (snd an) then [mk_out c dur f lb (Z.of_nat b) (fin_fn k dur (fst an) (snd an))] else [])
+             (seq 0 (Z.to_nat (stream_len c dur))).
+
+  Lemma flat_map_ext_in' {A B} (F G : A -> list B) (l : list A) : (forall x, In x l -> F x = G x) -> flat_map F l = flat_map G l.
+  Proof. induction l as [|x r IH]; intros H; cbn; [reflexivity|]. rewrite (H x (or_introl eq_refl)), IH; [reflexivity|]. intros y Hy. apply H. now right. Qed.
+
+  Lemma stream_emits k c dur l ss f s e0 rest :
+    0 <= stream_len c dur ->
+    cells_inv k c dur ss l -> streams_find V ss f = Some s -> proj f l = e0 :: rest ->
+    emit V v0 vltb c dur f (s_labels V s) 0 (agg_fin V v0 vdiv vltb veqb vofZ k dur (s_values V s)) = series_out k c dur f (e_lbl V e0) l.
+  Proof.
+    intros HN Inv F P. specialize (Inv f). rewrite F in Inv. destruct Inv as [[e1 [r1 [P1 L]]] [Len C]].
+    rewrite P in P1. inversion P1; subst e1 r1. rewrite emit_spec, agg_fin_fn, map_even_length. unfold series_out.
+    assert (Hn : Nat.div2 (List.length (s_values V s)) = Z.to_nat (stream_len c dur)).
+    { replace (List.length (s_values V s)) with (2 * Z.to_nat (stream_len c dur))%nat by lia. apply Nat.div2_double. }
+    rewrite Hn. apply flat_map_ext_in'. intros b Hb. apply in_seq in Hb.
+    rewrite cell_map_even by (rewrite Hn; lia). rewrite (C b) by lia. cbn [fst snd]. rewrite L, Z.add_0_l. reflexivity.
+  Qed.
+
+  (* every entry a series sends carries the series' fingerprint *)
+  Lemma series_out_fp k c dur f lb l g : proj g (series_out k c dur f lb l) = if N.eqb f g then series_out k c dur f lb l else [].
+  Proof.
+    unfold series_out. induction (seq 0 (Z.to_nat (stream_len c dur))) as [|b r IH]; cbn [flat_map].
+    - now destruct (N.eqb f g).
+    - rewrite proj_app, IH. destruct (vltb v0 _); cbn [proj filter mk_out e_fp app]; destruct (N.eqb f g); reflexivity.
+  Qed.
+
+  Notation agg_ops' := (agg_ops V v0 v1 vadd vdiv vltb veqb vofZ).
+
+  Lemma concat_filter_nonempty {A} (X : list (list A)) :
+    List.concat (filter (fun b => negb (Nat.eqb (List.length b) 0)) X) = List.concat X.
+  Proof. induction X as [|x r IH]; [reflexivity|]. cbn [filter]. destruct x; cbn; [exact IH|]. now rewrite IH. Qed.
+
+  Definition lbl_first (l : list entry) (g : N) : option lbls := match proj g l with e0 :: _ => e_lbl V e0 | [] => None end.
+
+  Lemma skeys_find_none r g : skeys (Some g) r -> streams_find V r g = None.
+  Proof.
+    intros Hsk. destruct (streams_find V r g) as [s2|] eqn:F2; [|reflexivity]. exfalso.
+    assert (Hin2 : exists s3, In (g, s3) r).
+    { clear - F2. induction r as [|[h s3] r' IH]; [discriminate|]. cbn [streams_find] in F2.
+      destruct (N.eqb_spec g h) as [->|_]; [exists s3; now left|]. destruct (IH F2) as [s4 H4]. exists s4. now right. }
+    destruct Hin2 as [s3 H3]. pose proof (skeys_lower r g Hsk g s3 H3). lia.
+  Qed.
+
+  Lemma proj_series k c dur l f : forall ss0 lo, skeys lo ss0 ->
+    proj f (List.concat (map (fun fs : N * stream V => series_out k c dur (fst fs) (lbl_first l (fst fs)) l) ss0)) =
+    match streams_find V ss0 f with Some _ => series_out k c dur f (lbl_first l f) l | None => [] end.
+  Proof.
+    induction ss0 as [|[g s] r IH]; intros lo Hsk; [reflexivity|]. cbn [skeys] in Hsk. destruct Hsk as [_ Hsk].
+    cbn [map List.concat fst streams_find]. rewrite proj_app, series_out_fp, (IH (Some g) Hsk).
+    destruct (N.eqb_spec f g) as [->|Hne].
+    - rewrite N.eqb_refl, (skeys_find_none r g Hsk). apply app_nil_r.
+    - replace (N.eqb g f) with false by (symmetry; apply N.eqb_neq; congruence). reflexivity.
+  Qed.
+
+  (* the output of an aggregation stage that did not fail, one fingerprint at a time *)
+  Lemma agg_output k c dur l ss l' : agg_specified k = true -> agg_input_ok c dur l -> 0 <= stream_len c dur ->
+    fold_entries V (agg_ops' k c dur) [] l = Ok (ss, l') ->
+    forall f, proj f (List.concat (wrap (agg_ops' k c dur) [] [l])) =
+              match proj f l with [] => [] | e0 :: _ => series_out k c dur f (e_lbl V e0) l end.
+  Proof.
+    intros Hk Hin HN Hf f. cbn [wrap]. rewrite Hf. cbn [on_slice on_end agg_ops app].
+    destruct (agg_fold k c dur Hk l [] [] ss l' Hin (cells_inv_nil k c dur) Hf) as [Inv _]. cbn [app] in Inv.
+    pose proof (agg_fold_keys k c dur l [] ss l' I Hf) as Hkeys.
+    unfold agg_on_end. rewrite concat_filter_nonempty.
+    assert (M : map (fun fs : N * stream V => emit V v0 vltb c dur (fst fs) (s_labels V (snd fs)) 0 (agg_fin V v0 vdiv vltb veqb vofZ k dur (s_values V (snd fs)))) ss =
+                map (fun fs : N * stream V => series_out k c dur (fst fs) (lbl_first l (fst fs)) l) ss).
+    { apply map_ext_in. intros [g s] Hin'. cbn [fst snd].
+      pose proof (skeys_find ss None g s Hkeys Hin') as Fg.
+      pose proof (Inv g) as Ig. rewrite Fg in Ig. destruct Ig as [[e0 [rest [Pg _]]] _].
+      rewrite (stream_emits k c dur l ss g s e0 rest HN Inv Fg Pg). unfold lbl_first. now rewrite Pg. }
+    rewrite M, (proj_series k c dur l f ss None Hkeys).
+    pose proof (Inv f) as If. unfold lbl_first. destruct (streams_find V ss f) as [s|].
+    - destruct If as [[e0 [rest [P _]]] _]. now rewrite P.
+    - now rewrite If.
+  Qed.
+
+  (* ---- the value of a bucket, function by function, against the reference ---- *)
+  Section VALUES.
+    (* facts about the float operations that the comparison with the reference needs (true of IEEE binary64) *)
+    Hypothesis H00 : vltb v0 v0 = false.
+    Hypothesis H01 : vltb v0 v1 = true.
+    Hypothesis Heq0 : veqb v0 v0 = true.
+    Hypothesis Hne1 : veqb v1 v0 = false.
+    Hypothesis H0p1 : vltb v0 (vadd v0 v1) = true.
+    Hypothesis Hpos : forall x, vltb v0 x = true -> vltb v0 (vadd x v1) = true.
+    Hypothesis Hnz : forall x, vltb v0 x = true -> veqb x v0 = false.
+
+    Lemma fold_left_map' {A B C} (f : A -> B -> A) (h : C -> B) (l : list C) : forall a,
+      fold_left f (map h l) a = fold_left (fun a x => f a (h x)) l a.
+    Proof. induction l as [|x r IH]; intros a; cbn; [reflexivity|]. apply IH. Qed.
+
+    Lemma fold_const_counter (g : V -> entry -> V) : forall es a0 n0, es <> [] ->
+      fold_left (fun acc e => (g (fst acc) e, v1)) es (a0, n0) = (fold_left g es a0, v1).
+    Proof.
+      induction es as [|e r IH]; intros a0 n0 H; [contradiction|]. cbn [fold_left fst].
+      destruct r as [|e2 r2]; [reflexivity|]. apply IH. discriminate.
+    Qed.
+
+    Lemma fold_pair (g : V -> entry -> V) (h : V -> V) : forall es a0 n0,
+      fold_left (fun acc e => (g (fst acc) e, h (snd acc))) es (a0, n0) = (fold_left g es a0, fold_left (fun n _ => h n) es n0).
+    Proof. induction es as [|e r IH]; intros a0 n0; cbn [fold_left fst snd]; [reflexivity|]. apply IH. Qed.
+
+    Lemma count_pos : forall (es : list entry) n0, (n0 = v0 \/ vltb v0 n0 = true) -> es <> [] ->
+      vltb v0 (fold_left (fun n (_ : entry) => vadd n v1) es n0) = true.
+    Proof.
+      induction es as [|e r IH]; intros n0 Hn H; [contradiction|]. cbn [fold_left].
+      assert (Hp : vltb v0 (vadd n0 v1) = true) by (destruct Hn as [->|Hn]; [exact H0p1|now apply Hpos]).
+      destruct r as [|e2 r2]; [exact Hp|]. apply IH; [now right|discriminate].
+    Qed.
+
+    Lemma fold_sel (pick : V -> V -> V) (cond : V -> V -> bool) :
+      (forall a x, pick a x = if cond a x then x else a) ->
+      forall r a, fold_left (fun acc (e : entry) => if cond (fst acc) (e_val V e) || veqb (snd acc) v0 then (e_val V e, v1) else (fst acc, snd acc)) r (a, v1) =
+                  (fold_left pick (map (e_val V) r) a, v1).
+    Proof.
+      intros Hp. induction r as [|e r IH]; intros a; cbn [fold_left map fst snd]; [reflexivity|].
+      rewrite Hne1, orb_false_r, Hp. destruct (cond a (e_val V e)); apply IH.
+    Qed.
+
+    Lemma last_default {A} : forall (l : list A) (x d d' : A), last (x :: l) d = last (x :: l) d'.
+    Proof. induction l as [|y l' IH]; intros x d d'; [reflexivity|]. cbn [last]. apply (IH y). Qed.
+
+    Lemma bucket_value k dur es : agg_specified k = true -> es <> [] ->
+      vltb v0 (snd (fold_cell k es)) = true /\
+      sem_bucket_value V v0 v1 vadd vdiv vltb vofZ k dur es = Some (fin_fn k dur (fst (fold_cell k es)) (snd (fold_cell k es))).
+    Proof.
+      intros Hk Hne. destruct es as [|e0 r]; [contradiction|]. unfold fold_cell.
+      assert (NE : e0 :: r <> []) by discriminate.
+      destruct k as [fn|fn|fn]; destruct fn; try discriminate Hk; cbn [upd_of sem_bucket_value fin_fn].
+      - (* rate *) rewrite (fold_const_counter (fun a _ => vadd a v1)) by exact NE. cbn [fst snd]. split; [exact H01|].
+        unfold vcount. now rewrite fold_left_map'.
+      - (* count_over_time *) rewrite (fold_const_counter (fun a _ => vadd a v1)) by exact NE. cbn [fst snd]. split; [exact H01|].
+        unfold vcount. now rewrite fold_left_map'.
+      - (* bytes_rate *) rewrite (fold_const_counter (fun a e => vadd a (vofZ (Z.of_nat (String.length (e_msg V e)))))) by exact NE.
+        cbn [fst snd]. split; [exact H01|]. unfold vsum. now rewrite fold_left_map'.
+      - (* bytes_over_time *) rewrite (fold_const_counter (fun a e => vadd a (vofZ (Z.of_nat (String.length (e_msg V e)))))) by exact NE.
+        cbn [fst snd]. split; [exact H01|]. unfold vsum. now rewrite fold_left_map'.
+      - (* unwrap rate *) rewrite (fold_const_counter (fun a e => vadd a (e_val V e))) by exact NE. cbn [fst snd]. split; [exact H01|].
+        unfold vsum. now rewrite fold_left_map'.
+      - (* sum_over_time *) rewrite (fold_const_counter (fun a e => vadd a (e_val V e))) by exact NE. cbn [fst snd]. split; [exact H01|].
+        unfold vsum. now rewrite fold_left_map'.
+      - (* avg_over_time *) rewrite (fold_pair (fun a e => vadd a (e_val V e)) (fun n => vadd n v1)). cbn [fst snd].
+        pose proof (count_pos (e0 :: r) v0 (or_introl eq_refl) NE) as P. split; [exact P|].
+        rewrite (Hnz _ P). unfold vsum, vcount. now rewrite !fold_left_map'.
+      - (* max_over_time *) cbn [fold_left fst snd]. rewrite Heq0, orb_true_r.
+        rewrite (fold_sel (vmax V vltb) (fun a x => vltb a x)) by reflexivity. cbn [fst snd]. split; [exact H01|reflexivity].
+      - (* min_over_time *) cbn [fold_left fst snd]. rewrite Heq0, orb_true_r.
+        rewrite (fold_sel (vmin V vltb) (fun a x => vltb x a)) by reflexivity. cbn [fst snd]. split; [exact H01|reflexivity].
+      - (* first_over_time *) cbn [fold_left fst snd]. rewrite Heq0.
+        assert (F : forall l a, fold_left (fun acc (e : entry) => if veqb (snd acc) v0 then (e_val V e, v1) else (fst acc, snd acc)) l (a, v1) = (a, v1)).
+        { induction l as [|x l' IHl]; intros a; cbn [fold_left fst snd]; [reflexivity|]. rewrite Hne1. apply IHl. }
+        rewrite F. cbn [fst snd]. split; [exact H01|reflexivity].
+      - (* last_over_time *)
+        assert (F : forall l a n, fold_left (fun _ (e : entry) => (e_val V e, v1)) l (a, n) = (last (map (e_val V) l) a, match l with [] => n | _ => v1 end)).
+        { induction l as [|x l' IHl]; intros a n; [reflexivity|]. cbn [fold_left map]. rewrite IHl. destruct l' as [|y l'']; [reflexivity|].
+          cbn [map]. f_equal. cbn [last]. apply last_default. }
+        rewrite F. cbn [fst snd]. split; [exact H01|]. f_equal. cbn [map]. apply last_default.
+      - (* sum *) rewrite (fold_const_counter (fun a e => vadd a (e_val V e))) by exact NE. cbn [fst snd]. split; [exact H01|].
+        unfold vsum. now rewrite fold_left_map'.
+      - (* min *) cbn [fold_left fst snd]. rewrite Heq0, orb_true_r.
+        rewrite (fold_sel (vmin V vltb) (fun a x => vltb x a)) by reflexivity. cbn [fst snd]. split; [exact H01|reflexivity].
+      - (* max *) cbn [fold_left fst snd]. rewrite Heq0, orb_true_r.
+        rewrite (fold_sel (vmax V vltb) (fun a x => vltb a x)) by reflexivity. cbn [fst snd]. split; [exact H01|reflexivity].
+      - (* avg *) rewrite (fold_pair (fun a e => vadd a (e_val V e)) (fun n => vadd n v1)). cbn [fst snd].
+        pose proof (count_pos (e0 :: r) v0 (or_introl eq_refl) NE) as P. split; [exact P|].
+        rewrite P. unfold vsum, vcount. now rewrite !fold_left_map'.
+      - (* count *) rewrite (fold_const_counter (fun a _ => vadd a v1)) by exact NE. cbn [fst snd]. split; [exact H01|].
+        unfold vcount. now rewrite fold_left_map'.
+    Qed.
+
+    (* one series against the reference: same buckets, same values, same entries *)
+    Lemma series_sem k c dur m f l : agg_specified k = true -> f = fpf m ->
+      (forall e, In e l -> N.eqb (e_fp V e) f = lbls_eqb (lbl_of V e) m) ->
+      (forall e, In e l -> 0 <= bucket_of V c dur e) ->
+      series_out k c dur f (Some m) l =
+      sem_buckets V v0 v1 vadd vdiv vltb vofZ fpf k c dur m (filter (fun e => lbls_eqb (lbl_of V e) m) l) 0 (Z.to_nat (stream_len c dur)).
+    Proof.
+      intros Hk Hf Hfaith Hb. unfold series_out.
+      assert (Hsel : forall b, sel c dur f b l = filter (fun e => bucket_of V c dur e =? Z.of_nat b) (filter (fun e => lbls_eqb (lbl_of V e) m) l)).
+      { intros b. unfold sel. clear - Hfaith Hb. induction l as [|e r IH]; [reflexivity|]. cbn [filter].
+        rewrite (Hfaith e (or_introl eq_refl)). assert (Hb0 := Hb e (or_introl eq_refl)).
+        assert (E : Nat.eqb (bkt c dur e) b = (bucket_of V c dur e =? Z.of_nat b)).
+        { unfold bkt. destruct (Nat.eqb_spec (Z.to_nat (bucket_of V c dur e)) b) as [H|H]; destruct (Z.eqb_spec (bucket_of V c dur e) (Z.of_nat b)) as [H'|H']; try reflexivity; lia. }
+        rewrite IH; [|intros x Hx; apply Hfaith; now right|intros x Hx; apply Hb; now right].
+        destruct (lbls_eqb (lbl_of V e) m); cbn [andb filter]; [rewrite E; reflexivity|reflexivity]. }
+      generalize (Z.to_nat (stream_len c dur)) as n. intros n.
+      assert (G : forall i, flat_map (fun b => let an := fold_cell k (sel c dur f b l) in
+                     if vltb v0 (snd an) then [mk_out c dur f (Some m) (Z.of_nat b) (fin_fn k dur (fst an) (snd an))] else []) (seq i n) =
+                  sem_buckets V v0 v1 vadd vdiv vltb vofZ fpf k c dur m (filter (fun e => lbls_eqb (lbl_of V e) m) l) (Z.of_nat i) n);
+        [|exact (G 0%nat)].
+      induction n as [|n IH]; intros i; cbn [seq flat_map sem_buckets]; [reflexivity|].
+      rewrite IH. replace (Z.of_nat i + 1) with (Z.of_nat (S i)) by lia. rewrite Hsel.
+      set (es := filter (fun e => bucket_of V c dur e =? Z.of_nat i) (filter (fun e => lbls_eqb (lbl_of V e) m) l)).
+      destruct es as [|e0 r] eqn:Ees.
+      - unfold fold_cell. cbn [fold_left snd]. rewrite H00. reflexivity.
+      - assert (NE : e0 :: r <> []) by discriminate. destruct (bucket_value k dur (e0 :: r) Hk NE) as [P Q].
+        rewrite P, Q. cbn [app]. unfold mk_out. now rewrite Hf.
+    Qed.
+
+    (* the aggregation stage against the reference, one series (label set) at a time, for every batching *)
+    Lemma agg_meets_definition k c dur bs ss l' m e0 rest :
+      agg_specified k = true -> agg_input_ok c dur (List.concat bs) ->
+      fold_entries V (agg_ops' k c dur) [] (List.concat bs) = Ok (ss, l') ->
+      (forall e, In e (List.concat bs) -> N.eqb (e_fp V e) (fpf m) = lbls_eqb (lbl_of V e) m) ->
+      proj (fpf m) (List.concat bs) = e0 :: rest -> e_lbl V e0 = Some m ->
+      proj (fpf m) (List.concat (run_stage c (SAgg V k dur) bs)) =
+      sem_buckets V v0 v1 vadd vdiv vltb vofZ fpf k c dur m (filter (fun e => lbls_eqb (lbl_of V e) m) (List.concat bs)) 0 (Z.to_nat (stream_len c dur)).
+    Proof.
+      intros Hk Hin Hf Hfaith P L. cbn [InternalEngine.run_stage].
+      rewrite (wrap_end_only (agg_ops' k c dur) (fun s b => eq_refl) bs []).
+      assert (HN : 0 <= stream_len c dur).
+      { assert (He0 : In e0 (List.concat bs)).
+        { assert (Hi : In e0 (proj (fpf m) (List.concat bs))) by (rewrite P; now left). unfold proj in Hi. apply filter_In in Hi. tauto. }
+        unfold agg_input_ok in Hin. rewrite Forall_forall in Hin. destruct (Hin e0 He0) as [_ Hw].
+        pose proof (bucket_in_window c dur e0 Hw). lia. }
+      rewrite (agg_output k c dur (List.concat bs) ss l' Hk Hin HN Hf (fpf m)), P, L.
+      apply series_sem; [exact Hk|reflexivity|exact Hfaith|].
+      intros e He. unfold agg_input_ok in Hin. rewrite Forall_forall in Hin. destruct (Hin e He) as [_ Hw].
+      pose proof (bucket_in_window c dur e Hw). lia.
+    Qed.
+  End VALUES.
 End PROOFS.
 
 (* ============================================================================================ *)
